@@ -23,6 +23,7 @@ RULE = (
     "the solo error; not collecting: the first failing rule's solo error is raised. Non-trivial = "
     ">= 2 rules with >= 1 failing rule that is not last."
 )
+RULE += (" In a third of the pipeline cases the same collection object was converted before by a lenient backend of the same class (its pipeline only resolves the placeholders).")
 ASSUMPTIONS = [
     "queries are compared as strings (same code, same configuration: isolation, not semantics)",
     "errors are compared by type and message text",
@@ -85,7 +86,7 @@ def make_rule(i: int, fail: str | None, nconds: int, product: str):
     return d
 
 
-def _convert(cfg, docs, use_pipeline: bool, collect: bool, nocorr: bool = False):
+def _convert(cfg, docs, use_pipeline: bool, collect: bool, nocorr: bool = False, warm: bool = False):
     from sigma.collection import SigmaCollection
     from sigma.processing.pipeline import ProcessingPipeline
 
@@ -99,6 +100,15 @@ def _convert(cfg, docs, use_pipeline: bool, collect: bool, nocorr: bool = False)
                            extra_attrs=dict(correlation_attrs({}), **{"query_expression": "{query} ##idx={state[index]}", "state_defaults": {"index": "none"}},
                                             **({"correlation_methods": None} if nocorr else {})))
     coll = SigmaCollection.from_dicts(copy.deepcopy(docs))
+    if warm:
+        # the very same collection object was converted before by a lenient backend (its pipeline only resolves the
+        # placeholders, which the pipeline of this conversion would do in the same way): what that conversion left on
+        # the rule objects must not show up in this one
+        try:   # (the lenient backend also supports case-sensitive values)
+            lenient = ProcessingPipeline.from_dict({"vars": copy.deepcopy(PIPELINE["vars"]), "transformations": [copy.deepcopy(PIPELINE["transformations"][-1])]})
+            make_backend(dict(cfg, cs=True, cs_shortcuts=True), lenient, collect_errors=True, extra_attrs=dict(correlation_attrs({}), **{"query_expression": "{query} ##idx={state[index]}", "state_defaults": {"index": "none"}})).convert(coll)
+        except Exception:  # noqa
+            pass
     try:
         res = backend.convert(coll)
         return ("ok", list(res), [(r.title, type(e).__name__, str(e)) for r, e in backend.errors])
@@ -127,7 +137,10 @@ def check_case(case: dict) -> Outcome:
             out.skipped = f"plan/solo disagreement at {i}: plan={f} solo={s[:2]}"
             return out
     nocorr = bool(case.get("nocorr")) and bool(corr) and collect  # a backend without correlation support
-    got = _convert(cfg, docs + ([corr] if corr else []), use_p, collect, nocorr)
+    warm = bool(case.get("warm")) and use_p
+    if warm:
+        out.label("collection-converted-before-by-another-backend")
+    got = _convert(cfg, docs + ([corr] if corr else []), use_p, collect, nocorr, warm)
     silenced = set()
     corr_fails = False
     if corr:
@@ -213,6 +226,8 @@ def cases(draw):
         case["corr"] = {"title": "corr", "correlation": {"type": "event_count", "rules": refs, "timespan": "5m", "condition": {"gte": 2},
                                                         "generate": draw(st.booleans())}}
         case["nocorr"] = draw(st.integers(0, 3)) == 0
+    if use_p and draw(st.integers(0, 2)) == 0:
+        case["warm"] = True
     return case
 
 
